@@ -385,6 +385,15 @@ def run_case(base, case, acc, A):
                 # one of them may not exist, nothing uniquely defined to compare
                 acc.count("second_call_not_comparable_unbounded_envelope")
                 differs = False
+            if differs and name.startswith("production_envelope") and _envelope_outside_fva_domain(m_use):
+                # the envelope takes its grid from flux_variability_analysis(fraction_of_optimum=0), which is defined
+                # for "fraction in [0, 1] when the optimum has the sign of the direction" (C05's quantifier, from the
+                # docstring).  A minimisation whose optimum is positive - here: a user's permanent objective requirement
+                # above zero - makes that internal problem infeasible and the grid whatever the solver held last
+                # (thorough tier, seeds 3 and 4): no uniquely defined quantity to compare.  The model-unchanged clause
+                # stays judged.
+                acc.count("second_call_not_comparable_envelope_outside_the_domain_of_its_internal_fva")
+                differs = False
             ws = _warm_start_suboptimum(name, fn, rng, a2, m_use, results[0], results[1]) if differs and raised[0] is None and raised[1] is None and "rxn_obj" not in str(name) else None
             if ws:
                 acc.violation(
@@ -473,6 +482,19 @@ def inject_solver_faults(acc, fn, name, m_use, a2, before, ident, wrec, base, ca
             )
             return False
     return True
+
+
+def _envelope_outside_fva_domain(m):
+    """True when the model's optimum does not have the sign of its direction (>= 0 when maximising, <= 0 when
+    minimising) - decided by the solver's own answer on a copy, with a margin."""
+    try:
+        c = m.copy()
+        v = c.slim_optimize()
+        if v != v:
+            return True  # no optimum at all
+        return (m.objective_direction == "max" and v < -1e-9) or (m.objective_direction == "min" and v > 1e-9)
+    except Exception:
+        return False
 
 
 def _same(a, b):
